@@ -81,6 +81,22 @@ TplDrift(r) ==
 AsEdit(e) == [pos |-> e.pos, del |-> e.del, ins |-> e.ins]
 SibsAndSelf(T, n) == IF T[n].p = 0 THEN {n} ELSE ToSet(T[T[n].p].ch)
 
+\* the configured expansion, for the fixes of the recorder (r.exp = <<expandStart, expandEnd>>): 1 = the sibling next to
+\* the node when it is a comma; 2 = expandStart: the NEAREST comma among the earlier siblings (stopBy: end), expandEnd: the
+\* nearest `]` among the later siblings (stopBy: end); 0 = none; 9 = not judged
+SibsBefore(T, n) == IF T[n].p = 0 THEN <<>> ELSE LET cs == T[T[n].p].ch  k == CHOOSE i \in 1..Len(cs) : cs[i] = n IN [i \in 1..(k - 1) |-> cs[k - i]]
+SibsAfter(T, n)  == IF T[n].p = 0 THEN <<>> ELSE LET cs == T[T[n].p].ch  k == CHOOSE i \in 1..Len(cs) : cs[i] = n IN [i \in 1..(Len(cs) - k) |-> cs[k + i]]
+ExpStart(T, n, el) ==
+    LET ps == SibsBefore(T, n)  hits == SelectSeq(ps, LAMBDA x : T[x].tx = 1) IN
+    CASE el = 1 -> IF ps # <<>> /\ T[ps[1]].tx = 1 THEN T[ps[1]].s ELSE T[n].s
+      [] el = 2 -> IF hits # <<>> THEN T[hits[1]].s ELSE T[n].s
+      [] OTHER -> T[n].s
+ExpEnd(T, n, er) ==
+    LET ns == SibsAfter(T, n)  hits == SelectSeq(ns, LAMBDA x : T[x].tx = 2) IN
+    CASE er = 1 -> IF ns # <<>> /\ T[ns[1]].tx = 1 THEN T[ns[1]].e ELSE T[n].e
+      [] er = 2 -> IF hits # <<>> THEN T[hits[1]].e ELSE T[n].e
+      [] OTHER -> T[n].e
+
 EditReasons(r) ==
     LET T == r.T  len == Len(r.src)
         lib == [k \in 1..Len(r.lib) |-> AsEdit(r.lib[k])]
@@ -95,7 +111,9 @@ EditReasons(r) ==
                        THEN (IF e.pos = T[n].s THEN {} ELSE {"lib-start-not-at-node"})
                             \cup (IF end <= T[n].e /\ (\E d \in DescSelf(T, n) : T[d].e = end) THEN {} ELSE {"lib-end-outside-node"})
                        ELSE (IF e.pos <= T[n].s /\ (\E x \in SibsAndSelf(T, n) : T[x].s = e.pos) THEN {} ELSE {"lib-expand-start"})
-                            \cup (IF end >= T[n].s /\ (\E x \in SibsAndSelf(T, n) : \E d \in DescSelf(T, x) : T[d].e = end) THEN {} ELSE {"lib-expand-end"}))
+                            \cup (IF end >= T[n].s /\ (\E x \in SibsAndSelf(T, n) : \E d \in DescSelf(T, x) : T[d].e = end) THEN {} ELSE {"lib-expand-end"})
+                            \cup (IF r.exp[1] = 9 \/ (e.pos = ExpStart(T, n, r.exp[1]) /\ end = ExpEnd(T, n, r.exp[2])) THEN {}
+                                  ELSE {"lib-edit-is-not-the-configured-expansion"}))
           : k \in 1..Len(r.lib) }
     \cup (IF OrderedDisjoint(lib) THEN {} ELSE {"lib-edits-overlap"})
     \cup UNION { (IF InBounds(len, cli[k]) THEN {} ELSE {"cli-out-of-bounds"}) : k \in 1..Len(cli) }
